@@ -172,8 +172,8 @@ def run_client_tree(case, rec, what):
         rec.transitions += 2
         s, a = cr.summarize(obs), cr.summarize(aobs)
         if norm_summary(s) != norm_summary(a):
-            names = ['attempt outcomes', 'request documents', 'sleep sequence', 'result / exception', 'tracer events']
-            idx = [i for i in range(5) if norm_summary(s[i]) != norm_summary(a[i])][0]
+            names = ['attempt outcomes', 'request documents', 'sleep sequence', 'result / exception', 'tracer events', 'later requests of the same client']
+            idx = [i for i in range(min(len(s), len(a))) if norm_summary(s[i]) != norm_summary(a[i])][0]
             rec.violation('C11:client:%s differ between sync and async (%s)' % (names[idx], what), dict(cfg=cfg, choices=list(choices)),
                           expected=dict(sync=s[idx]), observed={'async': a[idx]})
     rec.traces += leaves
